@@ -264,7 +264,6 @@ def _k2(ctx, rep):
         mutated = t in swaps
         stale = [x for x in body_nodes if isinstance(x, ast.Name) and x.id == p and isinstance(x.ctx, ast.Load)]
         if not mutated:
-            rep.info("K2", f, "working copy %s" % t, "copied from %s but not swapped in the loop" % p)
             continue
         if stale:
             rep.violation("K2", f, "working copy %s of %s" % (t, p), "`%s` is read inside the loop (line %d) although the loop swaps its working copy `%s`: "
@@ -277,4 +276,9 @@ def _k2(ctx, rep):
         rep.check(len(idxs) == 1, "K2", f, "lockstep swaps of %s" % sorted(swaps), "same positions %s" % (sorted(idxs)[0],),
                   "the working lists are swapped at different positions %s: order and sizes drift apart" % sorted(idxs), node=loop)
     else:
-        rep.undecided("K2", f, "lockstep swaps", "expected the order list and the size list to be swapped in the loop, found %s" % sorted(swaps))
+        unswapped = [t for t in copies if t not in swaps and any(isinstance(x, ast.Name) and x.id == t for x in body_nodes)]
+        if swaps and unswapped:
+            rep.violation("K2", f, "lockstep swaps of %s" % sorted(copies), "the loop swaps %s but not %s, which it reads on every pass: after the first "
+                          "transposition the sizes no longer belong to the systems at those positions" % (sorted(swaps), unswapped), node=loop)
+        else:
+            rep.undecided("K2", f, "lockstep swaps", "expected the order list and the size list to be swapped in the loop, found %s" % sorted(swaps))
